@@ -201,4 +201,168 @@ theorem hashTail_ring {α : Type} [Num α] (debug : Bool) {n r i : Nat} (dl dh :
       generalize (r - n) * (4 * n) = z
       rw [show tri4 (n - 1) + 4 * n + z + i = tri4 (n - 1) + (z + 4 * n) + i by omega]
 
+/-! ## from the plane to the 1×1 box -/
+
+theorem lit_250 : (Num.lit (α := ℝ) 0x4004000000000000) = 5 / 2 := by
+  show ((F64.toRat 0x4004000000000000 : ℚ) : ℝ) = 5 / 2
+  rw [toRat_of_fields _ 1024 0x4000000000000 (by decide) (by decide) (by decide) (by decide)]
+  norm_num
+
+theorem r_truncU64 (x : ℝ) : Num.truncU64 x = min ⌊max x 0⌋₊ (2 ^ 64 - 1) := rfl
+
+theorem truncU64_of_floor {x : ℝ} {a : ℕ} (h1 : (a : ℝ) ≤ x) (h2 : x < a + 1) (ha : a < 2 ^ 64) :
+    Num.truncU64 x = a := by
+  have h0 : 0 ≤ x := le_trans (Nat.cast_nonneg a) h1
+  rw [r_truncU64, max_eq_left h0, (Nat.floor_eq_iff h0).mpr ⟨h1, h2⟩]
+  omega
+
+/-- the real-number prelude of `hash_with_dldh`: for a point of the projection plane (`0 ≤ x < 8`, `−2 ≤ y ≤ 2`) no
+    debug assertion fails and the integer tail is entered with the box `(a, b)` (integer parts of `n·x/2` and
+    `n·(y+3)/2`) corrected by `deal_with_1x1_box` on the fractional parts -/
+theorem hashPlane_box (debug : Bool) {n : Nat} (hn : 1 ≤ n) (hn30 : n < 2 ^ 30) {X Y : ℝ} (hX0 : 0 ≤ X) (hX8 : X < 8)
+    (hY0 : -2 ≤ Y) (hY2 : Y ≤ 2) (a b : ℕ) (ha1 : (a : ℝ) ≤ 1 / 2 * n * X) (ha2 : 1 / 2 * n * X < a + 1)
+    (hb1 : (b : ℝ) ≤ 1 / 2 * n * (Y + 3)) (hb2 : 1 / 2 * n * (Y + 3) < b + 1) :
+    hashPlane debug n X Y =
+      hashTail debug n (1 / 2 * n * X - a) (1 / 2 * n * (Y + 3) - b)
+        (dealWith1x1Box (1 / 2 * (n : ℝ) * X - a) (1 / 2 * n * (Y + 3) - b) (2 * b) a).1
+        (dealWith1x1Box (1 / 2 * (n : ℝ) * X - a) (1 / 2 * n * (Y + 3) - b) (2 * b) a).2 := by
+  have hn0 : (0 : ℝ) < n := by exact_mod_cast hn
+  have hnr : (n : ℝ) < 2 ^ 30 := by exact_mod_cast hn30
+  have hx : ensuresXIsPositive X = X := by
+    unfold ensuresXIsPositive
+    have : Num.lt X (Num.zero : ℝ) = false := by rw [r_lt, r_zero]; simpa using hX0
+    rw [this]; simp
+  have hdl0 : 1 / 2 * (n : ℝ) * X < 4 * n := by nlinarith
+  have hdl00 : 0 ≤ 1 / 2 * (n : ℝ) * X := by positivity
+  have hdh0 : 1 / 2 * (n : ℝ) * (Y + 3) ≤ 5 / 2 * n := by nlinarith
+  have hdh00 : 0 ≤ 1 / 2 * (n : ℝ) * (Y + 3) := by
+    have : 0 ≤ Y + 3 := by linarith
+    positivity
+  have ha : a < 2 ^ 32 := by
+    have : (a : ℝ) < 2 ^ 32 := by linarith
+    exact_mod_cast this
+  have hb : b < 2 ^ 32 := by
+    have : (b : ℝ) < 2 ^ 32 := by linarith
+    exact_mod_cast this
+  unfold hashPlane
+  simp only [hx, r_half, r_ofNat, r_zero, r_one, r_le, r_lt, lit_250, Nat.cast_ofNat]
+  rw [truncU64_of_floor ha1 ha2 (by omega), truncU64_of_floor hb1 hb2 (by omega)]
+  have e1 : b <<< 1 % 2 ^ 64 = 2 * b := by rw [Nat.shiftLeft_eq]; omega
+  have e2 : (2 * b) >>> 1 = b := by rw [Nat.shiftRight_eq_div_pow]; omega
+  simp only [e1, e2]
+  have d1 : decide (0 ≤ 1 / 2 * (n : ℝ) * X) = true := decide_eq_true hdl00
+  have d2 : decide (1 / 2 * (n : ℝ) * X < 4 * n) = true := decide_eq_true hdl0
+  have d3 : decide (0 ≤ 1 / 2 * (n : ℝ) * (Y + 3)) = true := decide_eq_true hdh00
+  have d4 : decide (1 / 2 * (n : ℝ) * (Y + 3) ≤ 5 / 2 * n) = true := decide_eq_true hdh0
+  have d5 : decide (0 ≤ 1 / 2 * (n : ℝ) * X - a) = true := decide_eq_true (by linarith)
+  have d6 : decide (1 / 2 * (n : ℝ) * X - a < 1) = true := decide_eq_true (by linarith)
+  have d7 : decide (0 ≤ 1 / 2 * (n : ℝ) * (Y + 3) - b) = true := decide_eq_true (by linarith)
+  have d8 : decide (1 / 2 * (n : ℝ) * (Y + 3) - b < 1) = true := decide_eq_true (by linarith)
+  simp only [d1, d2, d3, d4, d5, d6, d7, d8, Bool.and_self, Bool.not_true, Bool.and_false, Bool.false_eq_true, if_false]
+
+/-! ## hashing a centre -/
+
+theorem cxI_parity {n r i : Nat} (hr : r < 4 * n - 1) : cxI n r i % 2 = (5 * n - r) % 2 := by
+  unfold cxI cxOff
+  rw [Nat.mul_assoc]
+  split
+  · omega
+  · split <;> omega
+
+theorem r_ge (x y : ℝ) : Num.ge x y = decide (y ≤ x) := rfl
+
+/-- hashing the centre of cell `i` of ring `r` gives back the cell, with box offsets `(dl, dh) = (1/2, 0)` when the
+    centre sits in the middle of the bottom edge of its 1×1 box (`5n − 1 − r` even), `(0, 1/2)` when it sits in the
+    middle of the left edge -/
+theorem hashPlane_center (debug : Bool) {n r i : Nat} (hn : 1 ≤ n) (hn30 : n < 2 ^ 30) (hr : r < 4 * n - 1)
+    (hi : i < 4 * perFacet n r) :
+    hashPlane debug n ((cxI n r i : ℝ) / n) ((cyI n r : ℝ) / n) =
+      some (ringStart n r + i, if (5 * n - 1 - r) % 2 = 0 then ((1 / 2 : ℝ), (0 : ℝ)) else (0, 1 / 2)) := by
+  have hn0 : (0 : ℝ) < n := by exact_mod_cast hn
+  have hn0' : (n : ℝ) ≠ 0 := ne_of_gt hn0
+  have hcx := cxI_lt hn hr hi
+  have hpar := cxI_parity (n := n) (r := r) (i := i) hr
+  have hX0 : (0 : ℝ) ≤ (cxI n r i : ℝ) / n := by positivity
+  have hX8 : (cxI n r i : ℝ) / n < 8 := by
+    rw [div_lt_iff₀ hn0]; exact_mod_cast hcx
+  have hY0 : -2 ≤ (cyI n r : ℝ) / n := by
+    rw [le_div_iff₀ hn0]
+    have : -2 * (n : ℤ) ≤ cyI n r := by unfold cyI; omega
+    exact_mod_cast this
+  have hY2 : (cyI n r : ℝ) / n ≤ 2 := by
+    rw [div_le_iff₀ hn0]
+    have : cyI n r ≤ 2 * (n : ℤ) := by unfold cyI; omega
+    exact_mod_cast this
+  have eX : 1 / 2 * (n : ℝ) * ((cxI n r i : ℝ) / n) = (cxI n r i : ℝ) / 2 := by field_simp
+  have ek : (cyI n r : ℝ) = ((5 * n - 1 - r : ℕ) : ℝ) - 3 * n := by
+    have : cyI n r = ((5 * n - 1 - r : ℕ) : ℤ) - 3 * (n : ℤ) := by unfold cyI; omega
+    rw [this]; push_cast; ring
+  have eY : 1 / 2 * (n : ℝ) * ((cyI n r : ℝ) / n + 3) = ((5 * n - 1 - r : ℕ) : ℝ) / 2 := by
+    rw [ek]; field_simp; ring
+  have half_floor : ∀ c : ℕ, ((c / 2 : ℕ) : ℝ) = (c : ℝ) / 2 - ((c % 2 : ℕ) : ℝ) / 2 := by
+    intro c
+    have := Nat.div_add_mod c 2
+    have h2 : ((2 * (c / 2) + c % 2 : ℕ) : ℝ) = c := by rw [this]
+    push_cast at h2; linarith
+  have hmod : ∀ c : ℕ, ((c % 2 : ℕ) : ℝ) = 0 ∨ ((c % 2 : ℕ) : ℝ) = 1 := by
+    intro c; rcases Nat.mod_two_eq_zero_or_one c with h | h <;> simp [h]
+  rw [hashPlane_box debug hn hn30 hX0 hX8 hY0 hY2 (cxI n r i / 2) ((5 * n - 1 - r) / 2)
+    (by rw [eX, half_floor]; rcases hmod (cxI n r i) with h | h <;> rw [h] <;> linarith)
+    (by rw [eX, half_floor]; rcases hmod (cxI n r i) with h | h <;> rw [h] <;> linarith)
+    (by rw [eY, half_floor]; rcases hmod (5 * n - 1 - r) with h | h <;> rw [h] <;> linarith)
+    (by rw [eY, half_floor]; rcases hmod (5 * n - 1 - r) with h | h <;> rw [h] <;> linarith)]
+  rw [eX, eY, half_floor, half_floor]
+  unfold dealWith1x1Box
+  simp only [r_le, r_ge, r_one]
+  rcases Nat.mod_two_eq_zero_or_one (5 * n - 1 - r) with hk | hk
+  · have hc : cxI n r i % 2 = 1 := by omega
+    have e1 : (cxI n r i : ℝ) / 2 - ((cxI n r i : ℝ) / 2 - ((cxI n r i % 2 : ℕ) : ℝ) / 2) = 1 / 2 := by
+      rw [hc]; push_cast; ring
+    have e2 : ((5 * n - 1 - r : ℕ) : ℝ) / 2 - (((5 * n - 1 - r : ℕ) : ℝ) / 2 - (((5 * n - 1 - r) % 2 : ℕ) : ℝ) / 2) = 0 := by
+      rw [hk]; push_cast; ring
+    rw [e1, e2, if_pos hk]
+    have d1 : decide ((1 / 2 : ℝ) ≤ 0) = false := by simp
+    have d2 : decide ((1 : ℝ) - 0 ≤ 1 / 2) = false := by norm_num
+    simp only [d1, d2, Bool.false_eq_true, if_false, Nat.add_zero, Nat.shiftRight_zero]
+    have : 2 * ((5 * n - 1 - r) / 2) = 5 * n - 1 - r := by omega
+    rw [this]
+    exact hashTail_ring debug _ _ hn hn30 hr hi
+  · have hc : cxI n r i % 2 = 0 := by omega
+    have e1 : (cxI n r i : ℝ) / 2 - ((cxI n r i : ℝ) / 2 - ((cxI n r i % 2 : ℕ) : ℝ) / 2) = 0 := by
+      rw [hc]; push_cast; ring
+    have e2 : ((5 * n - 1 - r : ℕ) : ℝ) / 2 - (((5 * n - 1 - r : ℕ) : ℝ) / 2 - (((5 * n - 1 - r) % 2 : ℕ) : ℝ) / 2) = 1 / 2 := by
+      rw [hk]; push_cast; ring
+    rw [e1, e2, if_neg (by omega : ¬ (5 * n - 1 - r) % 2 = 0)]
+    have d1 : decide ((0 : ℝ) ≤ 1 / 2) = true := by simp
+    have d2 : decide ((1 : ℝ) - 1 / 2 ≤ 0) = false := by norm_num
+    simp only [d1, d2, Bool.false_eq_true, if_false, if_true, Nat.add_zero]
+    have : 2 * ((5 * n - 1 - r) / 2) + 1 = 5 * n - 1 - r := by omega
+    rw [this]
+    have : cxI n r i / 2 + 0 >>> 1 = cxI n r i / 2 := by simp
+    rw [this]
+    exact hashTail_ring debug _ _ hn hn30 hr hi
+
+theorem dldhToDxDy_center : dldhToDxDy ((1 : ℝ) / 2) 0 = (1 / 2, 1 / 2) ∧ dldhToDxDy (0 : ℝ) (1 / 2) = (1 / 2, 1 / 2) := by
+  unfold dldhToDxDy
+  simp only [r_lt, r_one, r_zero]
+  constructor <;> norm_num
+
+/-- `ring_hash_center` (task item 3): for every `nside = n ≥ 1` and every cell `h < 12 n²`, hashing the centre of `h`
+    (in the plane) returns `h` in both profiles; the box offsets returned are `(dl, dh) = (1/2, 0)` or `(0, 1/2)`, which
+    `dldh_to_dxdy` maps to the centre `(dx, dy) = (1/2, 1/2)` of the cell -/
+theorem ring_hash_center (debug : Bool) {n : Nat} (hn : 1 ≤ n) (hn30 : n < 2 ^ 30) (hRI : RingIndexExact n)
+    (h : Nat) (hh : h < 12 * n * n) :
+    ∃ cx cy dl dh : ℝ, centerOfProjectedCell (α := ℝ) debug n h = some (cx, cy) ∧
+      hashPlane debug n cx cy = some (h, dl, dh) ∧ ((dl, dh) = (1 / 2, 0) ∨ (dl, dh) = (0, 1 / 2)) ∧
+      dldhToDxDy dl dh = (1 / 2, 1 / 2) := by
+  obtain ⟨r, i, hr, hi, e⟩ := ring_decompose hn h hh
+  have hc := center_eq debug hn hn30 hRI hr hi
+  have hp := hashPlane_center debug hn hn30 hr hi
+  rw [← e] at hc hp
+  by_cases hk : (5 * n - 1 - r) % 2 = 0
+  · rw [if_pos hk] at hp
+    exact ⟨_, _, _, _, hc, hp, Or.inl rfl, dldhToDxDy_center.1⟩
+  · rw [if_neg hk] at hp
+    exact ⟨_, _, _, _, hc, hp, Or.inr rfl, dldhToDxDy_center.2⟩
+
 end Hpx.RingReal
